@@ -24,6 +24,7 @@ def expand_krylov_space(self, f, tol, ncv, hermitian, V, H=None, **kwargs):
     happy = False
     for j in range(len(V) - 1, ncv):
         w = f(V[-1])
+        norm_fv = w.norm()
         if not hermitian:  # Arnoldi
             amplitudes = [1]
             for i in range(j + 1):
@@ -38,6 +39,15 @@ def expand_krylov_space(self, f, tol, ncv, hermitian, V, H=None, **kwargs):
                 H[(j - 1, j)] = H[(j, j - 1)]
                 w = w.add(V[j - 1], V[j], amplitudes=[1, -H[(j - 1, j)], -H[(j, j)]], **kwargs)
         H[(j + 1, j)] = w.norm()
+        if H[(j + 1, j)] < 1e-6 * norm_fv:
+            # Almost nothing is left of f(V[-1]): what remains is dominated by rounding errors of the orthogonalization above.
+            # Orthogonalize once more, so that an exhausted (invariant) Krylov space is recognized below.
+            cs = [V[i].vdot(w) for i in range(j + 1)]
+            w = w.add(*V[:j + 1], amplitudes=[1] + [-c for c in cs], **kwargs)
+            if not hermitian:
+                for i, c in enumerate(cs):
+                    H[(i, j)] = H[(i, j)] + c
+            H[(j + 1, j)] = w.norm()
         if H[(j + 1, j)] < tol:
             happy = True
             H.pop((j + 1, j))
